@@ -327,14 +327,17 @@ func runC17(w *worker) func(c c17Case) *Failure {
 			if hs[0]%3 == 0 || (!here.DecErr && c17HasOddBool(c.Msg)) {
 				there, err := controlOutcome(c)
 				if err != nil {
-					return failf("control-failed", "%v", err)
-				}
-				if here != there {
+					w.label("control-process-unavailable") // no comparison made: not evidence of anything
+				} else if there.Fail != "" {
+					return failf("outcome-failed", "in a fresh process without legacy calls: %s", there.Fail)
+				} else if here != there {
 					return failf("differs-from-control", "under %s with legacy calls %v the codec results differ from a fresh process without any:\n here: %+v\nthere: %+v", envLabel, c.Before, here, there)
 				}
-				w.label("compared-with-control-process")
-				if c17HasOddBool(c.Msg) && !here.DecErr {
-					w.label("compared-with-control-process:odd-bool-byte")
+				if err == nil {
+					w.label("compared-with-control-process")
+					if c17HasOddBool(c.Msg) && !here.DecErr {
+						w.label("compared-with-control-process:odd-bool-byte")
+					}
 				}
 			}
 		}
